@@ -16,6 +16,22 @@ func ThreadSafeDuplex[T uint32 | uint64](provider Duplex[T]) Duplex[T] {
 	}
 }
 
+// operandOf returns a provider that the binary set operations below may read while holding their own lock. Another
+// thread-safe provider is read through its lock: doing that from inside this provider's critical section never returns
+// when the operand is this provider itself, and two goroutines that combine the same pair of providers in opposite
+// order block each other. A private copy of the operand, taken under the operand's lock before this provider's lock is
+// acquired, needs no second lock.
+func operandOf[T uint32 | uint64](other Provider[T]) Provider[T] {
+	if wrapped, isWrapped := other.(threadSafeDuplex[T]); isWrapped {
+		wrapped.lock.Lock()
+		defer wrapped.lock.Unlock()
+
+		return wrapped.provider.Clone()
+	}
+
+	return other
+}
+
 func (s threadSafeDuplex[T]) Clear() {
 	s.lock.Lock()
 	defer s.lock.Unlock()
@@ -31,10 +47,12 @@ func (s threadSafeDuplex[T]) Add(values ...T) {
 }
 
 func (s threadSafeDuplex[T]) AndNot(other Provider[T]) {
+	operand := operandOf(other)
+
 	s.lock.Lock()
 	defer s.lock.Unlock()
 
-	s.provider.AndNot(other)
+	s.provider.AndNot(operand)
 }
 
 func (s threadSafeDuplex[T]) Remove(value T) {
@@ -45,24 +63,30 @@ func (s threadSafeDuplex[T]) Remove(value T) {
 }
 
 func (s threadSafeDuplex[T]) Xor(other Provider[T]) {
+	operand := operandOf(other)
+
 	s.lock.Lock()
 	defer s.lock.Unlock()
 
-	s.provider.Xor(other)
+	s.provider.Xor(operand)
 }
 
 func (s threadSafeDuplex[T]) And(other Provider[T]) {
+	operand := operandOf(other)
+
 	s.lock.Lock()
 	defer s.lock.Unlock()
 
-	s.provider.And(other)
+	s.provider.And(operand)
 }
 
 func (s threadSafeDuplex[T]) Or(other Provider[T]) {
+	operand := operandOf(other)
+
 	s.lock.Lock()
 	defer s.lock.Unlock()
 
-	s.provider.Or(other)
+	s.provider.Or(operand)
 }
 
 func (s threadSafeDuplex[T]) Cardinality() uint64 {
